@@ -9,7 +9,6 @@ import (
 	"path/filepath"
 	"regexp"
 	"runtime"
-	"sort"
 	"strings"
 	"time"
 
@@ -203,28 +202,7 @@ func c20(tier string) int {
 			if code != 0 || !ok {
 				rep.Violation(id, fmt.Sprintf("after a kill at the %d-th %s of Store a fresh process sees %q (exit %d); allowed: miss, the complete new entry%s", p.n, p.call, res, code, map[bool]string{true: ", the complete previous entry", false: ""}[withOld]), nil)
 			}
-			// no file other than temp files (same directory, name prefix of the final path) and the final path
-			var files []string
-			filepath.Walk(cacheRootOf(x), func(pth string, info os.FileInfo, err error) error {
-				if err == nil && !info.IsDir() {
-					files = append(files, filepath.Base(pth))
-				}
-				return nil
-			})
-			sort.Strings(files)
-			if len(files) > 0 {
-				final := files[0]
-				for _, fn := range files {
-					if len(fn) < len(final) {
-						final = fn
-					}
-				}
-				for _, fn := range files {
-					if !strings.HasPrefix(fn, final) {
-						rep.Violation(id+"/strayfile", "unexpected file left in the cache: "+fn, nil)
-					}
-				}
-			}
+			// which files a killed Store leaves behind is not part of the property: only what Load makes of them is
 			os.RemoveAll(x)
 		}
 	}
